@@ -14,7 +14,18 @@ pub fn case_from_bytes<P: Property>(data: &[u8]) -> Option<P::Case> {
         failure_persistence: None,
         ..Config::default()
     };
-    let rng = TestRng::from_seed(RngAlgorithm::PassThrough, data);
+    // proptest's pass-through generator cannot carry these strategies: every `prop_oneof!` forks
+    // the generator for its lazily built alternatives and a fork takes half of what is left of the
+    // input, so the bytes are gone after a dozen choices, zeros follow, and rand's uniform sampling
+    // rejects a zero draw for ever. The input seeds a ChaCha generator instead (a byte-level
+    // mutation then is a fresh random case of the property's own distribution; the hand-written
+    // decoders `scenario_from_bytes` / `rx_raw_case` are the ones that mutate locally).
+    let mut seed = [0u8; 32];
+    for (i, b) in data.iter().enumerate() {
+        let j = i % 32;
+        seed[j] = (seed[j] ^ *b).rotate_left(3).wrapping_add(i as u8);
+    }
+    let rng = TestRng::from_seed(RngAlgorithm::ChaCha, &seed);
     let mut runner = TestRunner::new_with_rng(cfg, rng);
     P::strategy(Tier::Quick)
         .new_tree(&mut runner)
@@ -83,6 +94,112 @@ pub fn check(target: &str, r: Option<(Failure, String)>) {
     }
 }
 
+/// Hand-written total decoder for histories: 4 header bytes, then 4 bytes per event. Unlike the
+/// strategy-driven decoding (whose choices all move when one byte changes) a byte-level mutation
+/// here changes one event, inserts or deletes one - the shape coverage guidance needs.
+/// `inbound`: the broker also sends application messages (the history then starts with an
+/// acknowledged subscription whose stream exists, and the client-side limits are never tiny).
+pub fn scenario_from_bytes(data: &[u8], inbound: bool) -> crate::sim::Scenario {
+    use crate::sim::*;
+    let b = |i: usize| data.get(i).copied().unwrap_or(0);
+    let receive_max = match b(0) % 8 {
+        4 => Some(1u16),
+        5 => Some(2),
+        6 => Some(3),
+        7 => Some(16),
+        _ => None,
+    };
+    let max_packet_size = match b(1) % 8 {
+        6 if !inbound => Some(30u32),
+        7 if !inbound => Some(250),
+        _ => None,
+    };
+    let id_offset = match b(2) % 16 {
+        12 => 250u32,
+        13 => 255,
+        14 => 510,
+        _ => 0,
+    };
+    // connection prologue: Session Present, extra CONNACK properties, AUTH path, order, roomy
+    // client limits, an earlier connection (bits 0-4 and 6)
+    let prologue = b(3) & 0x5f;
+    let sel = |x: u8, y: u8| -> u16 {
+        match x % 4 {
+            0 => 0,
+            1 => 65535,
+            _ => u16::from_be_bytes([x, y]),
+        }
+    };
+    let mut events = vec![];
+    if inbound {
+        events.extend([
+            Ev::Start { h: 0, kind: OpKind::Sub(0), settle: false, solo: false },
+            Ev::In(Inbound::Ack { sel: 0, deco: Deco::default() }),
+            Ev::MakeStream { sel: 0 },
+        ]);
+    }
+    for c in data.get(4..).unwrap_or(&[]).chunks(4).take(150) {
+        let g = |i: usize| c.get(i).copied().unwrap_or(0);
+        let (k, x, y, z) = (g(0), g(1), g(2), g(3));
+        let ev = match k % 24 {
+            0..=4 => Ev::Start {
+                h: (x % 3) * 64,
+                kind: match y % 8 {
+                    0 => OpKind::Pub0,
+                    1 | 6 => OpKind::Pub1,
+                    2 | 7 => OpKind::Pub2,
+                    3 => OpKind::Sub(z % 4),
+                    4 => OpKind::Unsub(z % 3),
+                    _ => OpKind::Ping,
+                },
+                settle: false,
+                solo: false,
+            },
+            5..=9 => Ev::In(Inbound::Ack { sel: sel(x, y), deco: Deco { reason: z, reason_string: z & 1 != 0, user_props: (z >> 1) % 3, short: z & 8 != 0 } }),
+            10 => Ev::PollCtx,
+            11 => Ev::PollOp { sel: sel(x, y) },
+            12 | 13 => Ev::Settle,
+            14 => Ev::DropOp { sel: sel(x, y) },
+            15 => Ev::CloneHandle,
+            16 => Ev::ReenterRun,
+            17..=19 if inbound => Ev::In(Inbound::Publish {
+                qos: x % 3,
+                dup: x & 4 != 0,
+                retain: x & 8 != 0,
+                pid: [0u16, 0, 0, 1, 2, 3, 258, 65535][(y % 8) as usize],
+                target: match z % 8 {
+                    0..=3 => Target::Sub(sel(z >> 3, y)),
+                    4 => Target::Two(0, 65535),
+                    5 => Target::Unknown,
+                    6 => Target::None,
+                    _ => Target::All,
+                },
+                payload_len: (z >> 3) as u16 % 8,
+                props: 0,
+            }),
+            20 if inbound => Ev::In(Inbound::Pubrel { pid: [1u16, 2, 3, 258, 65535, 9][(x % 6) as usize], known: false }),
+            21 if inbound => Ev::MakeStream { sel: sel(x, y) },
+            22 if inbound => Ev::DropStream { sel: sel(x, y) },
+            23 if inbound => Ev::PollStream { sel: sel(x, y) },
+            _ => Ev::PollCtx,
+        };
+        events.push(ev);
+    }
+    Scenario { receive_max, max_packet_size, id_offset, prologue, events }
+}
+
+/// Properties whose case is a history: even first byte = hand-decoded history, odd = the
+/// property's own strategy.
+fn fuzz_scn<P: Property<Case = crate::sim::Scenario>>(data: &[u8], inbound: bool) -> Option<(Failure, String)> {
+    let (mode, rest) = data.split_first()?;
+    if mode % 2 == 1 {
+        return fuzz_struct::<P>(rest);
+    }
+    let case = scenario_from_bytes(rest, inbound);
+    let out = P::run(&case);
+    out.fail.map(|f| (f, serde_json::to_string(&case).unwrap_or_default()))
+}
+
 /// Shared `hist` target: the first byte (or $VERIF_HIST_SEL) selects the property.
 pub fn fuzz_hist(data: &[u8]) -> Option<(Failure, String)> {
     use crate::props::simprops::*;
@@ -93,14 +210,14 @@ pub fn fuzz_hist(data: &[u8]) -> Option<(Failure, String)> {
         .unwrap_or(*sel);
     use crate::props::misc::{C11, C12, C17};
     match sel % 13 {
-        0 => fuzz_struct::<C06>(rest),
-        1 => fuzz_struct::<C07>(rest),
-        2 => fuzz_struct::<C08>(rest),
-        3 => fuzz_struct::<C09>(rest),
-        4 => fuzz_struct::<C10>(rest),
+        0 => fuzz_scn::<C06>(rest, false),
+        1 => fuzz_scn::<C07>(rest, true),
+        2 => fuzz_scn::<C08>(rest, true),
+        3 => fuzz_scn::<C09>(rest, true),
+        4 => fuzz_scn::<C10>(rest, false),
         5 => fuzz_struct::<C13>(rest),
-        6 => fuzz_struct::<C15>(rest),
-        7 => fuzz_struct::<C05>(rest),
+        6 => fuzz_scn::<C15>(rest, false),
+        7 => fuzz_scn::<C05>(rest, data.get(1).map(|b| b & 2 != 0).unwrap_or(false)),
         8 => fuzz_struct::<C12>(rest),
         9 => fuzz_struct::<C14>(rest),
         10 => fuzz_struct::<C16>(rest),
